@@ -19,6 +19,7 @@ import (
 	"github.com/nspcc-dev/neo-go/pkg/crypto/hash"
 	"github.com/nspcc-dev/neo-go/pkg/io"
 	"github.com/nspcc-dev/neo-go/pkg/network/extpool"
+	npayload "github.com/nspcc-dev/neo-go/pkg/network/payload"
 	"github.com/nspcc-dev/neo-go/pkg/smartcontract"
 	"github.com/nspcc-dev/neo-go/pkg/util"
 	"github.com/nspcc-dev/neo-go/pkg/vm/emit"
@@ -213,6 +214,44 @@ func (r *run) deliver(i int, remove bool, bypassPool bool) {
 	r.events++
 }
 
+// corrupted offers the destination a copy of an in-flight payload with one byte flipped. Every byte
+// of an Extensible is covered either by the sender's signature or by the sender hash, so the
+// node's front door (wire decoding + extensible pool, as in network.Server.handleExtensibleCmd)
+// must turn it away; the service never sees it and the trace has no line for it.
+func (r *run) corrupted(fl flight) {
+	raw := append([]byte(nil), fl.m.raw...)
+	i := r.r.Intn(len(raw))
+	raw[i] ^= byte(1 << uint(r.r.Intn(8)))
+	e, err := unwire(raw)
+	if err != nil {
+		r.o.Count("corrupt:undecodable")
+		return
+	}
+	nd := r.cl.nodes[fl.to]
+	ok, err := hxSafePool(nd, e)
+	switch {
+	case err != nil:
+		r.o.Count("corrupt:rejected")
+	case !ok:
+		r.o.Count("corrupt:stale-or-known")
+	default:
+		if e.Hash() == fl.m.hash && string(wire(e)) == string(fl.m.raw) {
+			r.o.Count("corrupt:no-op")
+			return
+		}
+		r.fail("forged-payload-accepted", "node %d's extensible pool accepted %s with byte %d of its wire form changed", nd.idx, fl.m.desc, i)
+	}
+}
+
+func hxSafePool(nd *node, e *npayload.Extensible) (ok bool, err error) {
+	defer func() {
+		if p := recover(); p != nil {
+			err = fmt.Errorf("panic: %v", p)
+		}
+	}()
+	return nd.pool.Add(e)
+}
+
 func (r *run) fireTimer(nd *node) {
 	_, h, v, _ := nd.tm.state()
 	if !nd.tm.fire() {
@@ -372,7 +411,7 @@ func (r *run) deliverable() []int {
 
 func (r *run) adversarial() {
 	pf := r.pf
-	w := []int{pf.wDeliver, pf.wDrop, pf.wDup, pf.wTimer, pf.wSilence, pf.wTx, pf.wGive, pf.wRelay}
+	w := []int{pf.wDeliver, pf.wDrop, pf.wDup, pf.wTimer, pf.wSilence, pf.wTx, pf.wGive, pf.wRelay, 2}
 	for step := 0; step < pf.steps && r.ok(); step++ {
 		switch r.r.Weighted(w) {
 		case 0:
@@ -436,6 +475,10 @@ func (r *run) adversarial() {
 		case 7:
 			nd := r.cl.nodes[r.r.Intn(r.cl.n)]
 			r.relay(nd)
+		case 8:
+			if len(r.net) > 0 {
+				r.corrupted(r.net[r.r.Intn(len(r.net))])
+			}
 		}
 	}
 }
@@ -457,7 +500,7 @@ func (r *run) fair(blocks int) {
 	budgetPerBlock := 40 * r.cl.n
 	_, start := r.heights()
 	target := start + uint32(blocks)
-	fires := 0
+	fires, total := 0, 0
 	lastHi := start
 	r.snap = nil
 	for r.ok() {
@@ -493,6 +536,20 @@ func (r *run) fair(blocks int) {
 		if lo >= target {
 			return
 		}
+		// the known lock is permanent once its shape is reached: report it without burning the budget
+		if r.hadAsync && r.stallKey(hi+1) == "dbft20-liveness-lock" {
+			var st []string
+			for _, nd := range r.cl.nodes {
+				_, th, tv, _ := nd.tm.state()
+				c := ""
+				if cv, ok := r.commitAt[th][nd.idx]; ok {
+					c = fmt.Sprintf(",committed@v%d", cv)
+				}
+				st = append(st, fmt.Sprintf("n%d:h%d/v%d%s", nd.idx, th, tv, c))
+			}
+			r.fail("dbft20-liveness-lock", "fair schedule after an asynchronous prefix: no view can gather M validators any more at height %d (%s)", hi+1, strings.Join(st, " "))
+			return
+		}
 		// earliest deadline
 		var best *node
 		var bd int64
@@ -515,8 +572,20 @@ func (r *run) fair(blocks int) {
 			r.fail(r.stallKey(hi+1), "fair schedule: no new block after height %d within %d timeouts (%s)", hi, fires, strings.Join(st, " "))
 			return
 		}
+		// A validator that has sent its Commit only re-sends it on timeout, every 2*timePerBlock,
+		// while the others wait timePerBlock<<(view+1): only the timeouts of validators that can
+		// still change view count against the budget.
+		_, bh, _, _ := best.tm.state()
+		_, frozen := r.commitAt[bh][best.idx]
 		r.fireTimer(best)
-		fires++
+		if !frozen {
+			fires++
+		}
+		total++
+		if total > 200000 {
+			r.machinery = errors.New("fair phase: timers fire for ever")
+			return
+		}
 		r.o.Count("fair:timer")
 	}
 }
@@ -609,6 +678,9 @@ func (r *run) checkFairBlocks(from, to uint32) {
 			continue
 		}
 		r.o.Count(fmt.Sprintf("fair:block-at-view-%d", min(int(viewOf(b, r.cl.n)), 3)))
+		if !r.hadAsync && viewOf(b, r.cl.n) != 0 {
+			r.fail("sync-view-change", "synchronous run from the start: block %d was decided in view %d, not 0", h, viewOf(b, r.cl.n))
+		}
 		if r.snap != nil && r.snap.h+1 == h && viewOf(b, r.cl.n) == 0 {
 			in := map[util.Uint256]bool{}
 			for _, tx := range b.Transactions {
